@@ -25,6 +25,18 @@ Theorem C13_type_roundtrip : forall t, type_ok t = true ->
     type_new (S (length (print_type t))) (print_type t) = Some t.
 Proof. exact type_roundtrip. Qed.
 
+(* block strings: the builder's blank-line test and indentation measure are the
+   specification's (only TAB and SPACE are WhiteSpace; a no-break space, an
+   ideographic space, VT, FF ... are content) *)
+Theorem C13_block_blank_line : forall l,
+    has_content l = negb (only_ws l) /\
+    (has_content l = false <-> forall c, In c l -> c = 9 \/ c = 32).
+Proof. exact (fun l => conj (has_content_only_ws l) (has_content_false_iff l)). Qed.
+
+Theorem C13_block_indent : forall l,
+    indent_of l = if (leading_ws l <? length l)%nat then Some (leading_ws l) else None.
+Proof. exact indent_of_leading_ws. Qed.
+
 (* the rules of the regenerated grammar on which the lexical layer rests *)
 Theorem C13_grammar_lexical_rules :
   nth_error grammar (N.to_nat R_string_content) = Some (MAtomic, PStar (PRef R_string_character)) /\
@@ -89,6 +101,8 @@ Check C13_type_roundtrip : forall t, type_ok t = true ->
 Print Assumptions C13_string_value.
 Print Assumptions C13_string_value_u.
 Print Assumptions C13_type_roundtrip.
+Print Assumptions C13_block_blank_line.
+Print Assumptions C13_block_indent.
 Print Assumptions C13_grammar_lexical_rules.
 Print Assumptions C13_nesting_boundary.
 Print Assumptions C13_block_escape_refuted.
